@@ -143,15 +143,25 @@ class LakeLock:
         self.f.close()
 
 
-def regen(ctx):
-    """Regenerate lean/Percival/Gen/*.lean from /repo's current source."""
+def regen(ctx, prop_modules=None):
+    """Regenerate lean/Percival/Gen/*.lean from /repo's current source.  A broken extraction breaks the tie of the
+    properties whose theorems import that Gen module (others are not concerned by it)."""
     sys.path.insert(0, os.path.join(VERIF, "tools"))
     import extract
-    msgs = extract.regenerate(REPO, os.path.join(LEAN, "Percival", "Gen"))
-    for m in msgs:
+    msgs = extract.regenerate(REPO, os.path.join(LEAN, "Percival", "Gen"), detailed=True)
+    cone = None
+    if prop_modules:
+        cone = set()
+        for m in prop_modules:
+            lean_deps(m, cone)
+    out = []
+    for mod, m in msgs:
+        if cone is not None and mod is not None and ("Percival.Gen." + mod) not in cone:
+            continue
         ctx.proof_msgs.append("extract: " + m)
         ctx.proof_ok = False
-    return msgs
+        out.append(m)
+    return out
 
 
 def lake_build(targets):
@@ -221,7 +231,7 @@ def theorem_names(module):
 def proof_audit(ctx, prop_modules, extra_targets=("pmodel",)):
     """regen Gen, build, grep banned tokens, #print axioms on every property theorem."""
     with LakeLock():
-        regen(ctx)
+        regen(ctx, prop_modules)
         ok_pm, out_pm = lake_build(list(extra_targets))
         if not ok_pm:
             ctx.proof_ok = False
